@@ -119,10 +119,14 @@ fn same_mat<R>(a: &Mat<R>, m: &RM, what: &str) -> Chk where R: Sc + yui::Ring, f
 
 fn has_stored_zero<R>(a: &SpMat<R>) -> bool where R: Sc + yui::Ring, for<'a> &'a R: yui::RingOps<R> { a.iter().any(|(_, _, x)| x.is_zero()) }
 
-fn call<T>(what: &str, f: impl FnOnce() -> T) -> Chk<T> { match guard(f) { Ok(v) => Ok(v), Err(m) => bad(format!("{what}: valid operation panicked: {m}")) } }
+/// `machine`: the ring is built on i64, where an arithmetic-overflow panic is a discard (generated values are small enough
+/// never to overflow; byte-decoded (fuzz) cases can repeat a row operation often enough to do so)
+thread_local! { static MACHINE: std::cell::Cell<bool> = const { std::cell::Cell::new(false) }; }
+fn call<T>(what: &str, f: impl FnOnce() -> T) -> Chk<T> { let machine = MACHINE.with(|m| m.get()); match guard(f) { Ok(v) => Ok(v), Err(m) => if machine && is_arith_overflow(&m) { discard("machine-overflow") } else { bad(format!("{what}: valid operation panicked: {m}")) } } }
 
 fn run_ty<R>(c: &Case) -> Chk<Pass> where R: Sc + yui::Ring, for<'a> &'a R: yui::RingOps<R> {
     let k = R::rk();
+    MACHINE.with(|m| m.set(R::machine()));
     let mut regs: Regs<R> = Regs { v: vec![], stored_zero_used: false, zero_dim_used: false };
     let mut pass = Pass::new();
     let mut trans_nt = false;
